@@ -810,3 +810,77 @@ def sym_macro_prologue(instrs, entry, params, expected_defaults):
         info = dict(provided={str(d): bool(m[d]) for d in m.decls()},
                     params=[p_ for p_, b in bad if z3.is_true(m.eval(b, model_completion=True))])
     return str(r), info, dt, dict(params=k, paths=done_paths, stores=sum(len(v) for v in stores.values()))
+
+
+# ---------------------------------------------------------------------------------------------
+# C06: `{% from T import n1 as a1, ... %}` binds each alias to the imported template's export of that name
+# ---------------------------------------------------------------------------------------------
+def from_import_sites(instrs):
+    """pcs of `Include` instructions that belong to a from-import: PushWith; <name expr>; Include; Lookup*;
+    PopFrame; StoreLocal*."""
+    out = []
+    for pc, ins in enumerate(instrs):
+        if ins['op'] == 'Include' and pc >= 2 and instrs[pc - 2]['op'] == 'PushWith' and pc + 1 < len(instrs) \
+                and instrs[pc + 1]['op'] == 'Lookup':
+            out.append(pc)
+    return out
+
+
+def sym_from_import(instrs, pc_include, items):
+    """Symbolic execution of the real instructions from the Include of a from-import to its last StoreLocal.
+    The imported template is an arbitrary module: for every name x a free boolean says whether the module
+    defines x; a Lookup(x) inside the import frame yields MOD_x if it does and OUTER_x (whatever the enclosing
+    scope has) otherwise.  Query: is there a module for which some alias is bound to anything but the value of
+    ITS OWN exported name?  items: [(name, alias|None)].  Returns (verdict, info, seconds, stats)."""
+    names = sorted({n for n, _ in items} | {a for _, a in items if a})
+    idx = {n: i for i, n in enumerate(names)}
+    defined = {n: z3.Bool('module_defines_%s' % n) for n in names}
+
+    def lookup_in_module(n):
+        if n not in idx:
+            return None
+        return z3.If(defined[n], z3.IntVal(100 + idx[n]), z3.IntVal(200 + idx[n]))
+    stack = []
+    stores = {}
+    pc = pc_include + 1
+    in_frame = True
+    steps = 0
+    want_stores = len(items)
+    while len(stores) < want_stores:
+        steps += 1
+        if pc >= len(instrs) or steps > 200:
+            return 'unknown', 'from-import sequence did not finish at pc %d' % pc, 0.0, {}
+        ins = instrs[pc]
+        op, arg = ins['op'], ins.get('arg')
+        if op == 'Lookup' and in_frame:
+            v = lookup_in_module(arg)
+            if v is None:
+                return 'sat', dict(note='the import frame looks up %r, which the statement does not mention' % arg), 0.0, {}
+            stack.append(v)
+        elif op == 'PopFrame' and in_frame:
+            in_frame = False
+        elif op == 'StoreLocal' and not in_frame:
+            if not stack:
+                return 'sat', dict(note='StoreLocal(%s) with an empty operand stack' % arg), 0.0, {}
+            stores[arg] = stack.pop()
+        else:
+            return 'unknown', 'unexpected instruction %s in a from-import at pc %d' % (op, pc), 0.0, {}
+        pc += 1
+    bad = []
+    for n, al in items:
+        target = al or n
+        if target not in stores:
+            return 'sat', dict(note='%s is never bound' % target), 0.0, {}
+        bad.append((target, stores[target] != lookup_in_module(n)))
+    s_ = z3.Solver()
+    s_.set('timeout', 30000)
+    s_.add(z3.Or(*[b for _, b in bad]))
+    t0 = time.time()
+    r = s_.check()
+    dt = time.time() - t0
+    info = {}
+    if r == z3.sat:
+        m = s_.model()
+        info = dict(module={n: bool(z3.is_true(m.eval(defined[n], model_completion=True))) for n in names},
+                    wrong=[t for t, b in bad if z3.is_true(m.eval(b, model_completion=True))])
+    return str(r), info, dt, dict(names=len(names), stores=len(stores))
